@@ -167,7 +167,15 @@ SOLVERS = {0: ("ujk_from_fluxes", "fluxes_from_ujk"), 1: ("find_flux_sector", "f
 def call_solver(lat, conv, target, guess):
     """returns (result or exception, captured path calls)"""
     calls = []
-    orig = ffm.path_between_plaquettes
+    orig = getattr(ffm, "path_between_plaquettes", None)
+    if orig is None:
+        # the solver module no longer routes its path searches through flux_finder.path_between_plaquettes: the pairing and
+        # the paths cannot be observed (K impossible); the property itself (S) is still decided on the returned bonds
+        f = getattr(ffm, SOLVERS[conv][0])
+        try:
+            return f(lat, target, guess), None
+        except Exception as e:
+            return e, None
 
     def wrapper(l, a, b, *args, **kw):
         r = orig(l, a, b, *args, **kw)
@@ -314,6 +322,13 @@ def eval_lattice(ctx, case, lat, combos, label):
             for key, what in bad:
                 res.violation(key, what, rcase)
             if bad:
+                continue
+            if calls is None:
+                if not getattr(ctx, "_c06_unobservable_reported", False):
+                    ctx._c06_unobservable_reported = True
+                    ctx.k_mismatch(f"{label}: flux_finder has no attribute path_between_plaquettes any more: pairing and paths of the solver are not observable, "
+                                   f"the correspondence with the modelled algorithm cannot be run (the spec check on the returned bonds still runs)", rcase)
+                res.skip("K-not-run:path-calls-not-observable")
                 continue
             for (a, b_, ns, es, mx) in calls:
                 if mx != lat.n_edges:
